@@ -413,7 +413,7 @@ def known_match(known, prop, key):
 # engine S for one property
 # ------------------------------------------------------------------------------------------------
 def run_symx(prop, tier, seed, only=None):
-    rundir = os.path.join(BUILD, "run", prop)
+    rundir = os.path.join(BUILD, "run", prop if not only else "%s-%d" % (prop, os.getpid()))
     if os.path.exists(rundir):
         shutil.rmtree(rundir)
     os.makedirs(rundir)
